@@ -33,6 +33,7 @@ type aggRow struct {
 	uid, v          int64
 	fl              float64
 	ts              time.Time
+	vNull, svcNull  bool
 }
 
 var aggTags = []*databasev1.TagSpec{
@@ -44,16 +45,20 @@ var aggTags = []*databasev1.TagSpec{
 
 var aggFields = []*databasev1.FieldSpec{fieldSpec("v", databasev1.FieldType_FIELD_TYPE_INT), fieldSpec("fl", databasev1.FieldType_FIELD_TYPE_FLOAT)}
 
-func setupAggWorld(t *testing.T, sv *srv, rows []aggRow) {
+func setupAggWorld(t *testing.T, sv *srv, rows []aggRow) { setupAggWorldNamed(t, sv, rows, "ma", true) }
+
+func setupAggWorldNamed(t *testing.T, sv *srv, rows []aggRow, name string, createGroup bool) {
 	must := func(err error) {
 		if err != nil {
 			t.Fatalf("setup: %v", err)
 		}
 	}
-	must(sv.group("ga", commonv1.Catalog_CATALOG_MEASURE, 2, commonv1.IntervalRule_UNIT_DAY, 1, 36500))
-	must(sv.measure(&databasev1.Measure{Metadata: &commonv1.Metadata{Name: "ma", Group: "ga"},
+	if createGroup {
+		must(sv.group("ga", commonv1.Catalog_CATALOG_MEASURE, 2, commonv1.IntervalRule_UNIT_DAY, 1, 36500))
+	}
+	must(sv.measure(&databasev1.Measure{Metadata: &commonv1.Metadata{Name: name, Group: "ga"},
 		TagFamilies: []*databasev1.TagFamilySpec{{Name: "default", Tags: aggTags}}, Fields: aggFields, Entity: &databasev1.Entity{TagNames: []string{"id"}}}))
-	must(sv.waitWritableMeasure("ga", "ma", func() *measurev1.DataPointValue {
+	must(sv.waitWritableMeasure("ga", name, func() *measurev1.DataPointValue {
 		return &measurev1.DataPointValue{Timestamp: timestamppb.New(time.Date(2020, 1, 1, 0, 0, 0, 0, time.UTC)),
 			TagFamilies: []*modelv1.TagFamilyForWrite{{Tags: []*modelv1.TagValue{tStr("sentinel"), tInt(-1), tStr("s"), tStr("r")}}}, Fields: []*modelv1.FieldValue{fInt(0), fFloat(0)}}
 	}))
@@ -63,8 +68,14 @@ func setupAggWorld(t *testing.T, sv *srv, rows []aggRow) {
 		for i, q := range chunk {
 			pts[i] = &measurev1.DataPointValue{Timestamp: timestamppb.New(q.ts),
 				TagFamilies: []*modelv1.TagFamilyForWrite{{Tags: []*modelv1.TagValue{tStr(q.id), tInt(q.uid), tStr(q.svc), tStr(q.region)}}}, Fields: []*modelv1.FieldValue{fInt(q.v), fFloat(q.fl)}}
+			if q.svcNull {
+				pts[i].TagFamilies[0].Tags[2] = tNull()
+			}
+			if q.vNull {
+				pts[i].Fields[0] = fNull()
+			}
 		}
-		acked, err := sv.writeMeasure("ga", "ma", pts)
+		acked, err := sv.writeMeasure("ga", name, pts)
 		if err != nil || countTrue(acked) != len(pts) {
 			t.Fatalf("setup: writing agg rows: %v (%d/%d)", err, countTrue(acked), len(pts))
 		}
@@ -72,6 +83,7 @@ func setupAggWorld(t *testing.T, sv *srv, rows []aggRow) {
 }
 
 type aggQuery struct {
+	name    string
 	groupBy []string
 	fn      modelv1.AggregationFunction
 	field   string
@@ -92,7 +104,11 @@ func (q aggQuery) request(lo, hi time.Time) *measurev1.QueryRequest {
 			tags = []string{"id"}
 		}
 	}
-	req := &measurev1.QueryRequest{Groups: []string{"ga"}, Name: "ma", TimeRange: tsRange(lo, hi), Criteria: q.crit, Limit: q.limit,
+	nm := q.name
+	if nm == "" {
+		nm = "ma"
+	}
+	req := &measurev1.QueryRequest{Groups: []string{"ga"}, Name: nm, TimeRange: tsRange(lo, hi), Criteria: q.crit, Limit: q.limit,
 		TagProjection:   &modelv1.TagProjection{TagFamilies: []*modelv1.TagProjection_TagFamily{{Name: "default", Tags: tags}}},
 		FieldProjection: &measurev1.QueryRequest_FieldProjection{Names: []string{q.field}}}
 	if len(q.groupBy) > 0 {
@@ -438,6 +454,28 @@ func runDifferential(t *testing.T, s *verifh.Sink, vec, row *srv, kp, la, lb str
 	}
 	setupAggWorld(t, vec, arows)
 	setupAggWorld(t, row, arows)
+	// --- dataset C: the same shape with null group-by tags (differential only). Null FIELD values are left out:
+	//     the row path answers an aggregation over a field holding a null with an empty result (FromFieldValue
+	//     fails, the iterator stops, the error is dropped), so it cannot serve as the yardstick there.
+	var brows []aggRow
+	rb := verifh.Rand(kp+"aggnull", 0)
+	for i := 0; i < verifh.Pick(500, 3000); i++ {
+		uid++
+		b := aggRow{id: fmt.Sprintf("a%02d", rb.Intn(6)), uid: uid, ts: base.Add(time.Duration(rb.Intn(3))*24*time.Hour + 30*time.Minute + time.Duration(i)*time.Second),
+			v: int64(i)*7919%20011 - 10000, fl: float64(rb.Intn(1000)) / 4, svcNull: rb.Intn(4) == 0}
+		b.svc, b.region = fmt.Sprintf("svc-%d", rb.Intn(3)), fmt.Sprintf("r%d", rb.Intn(2))
+		brows = append(brows, b)
+	}
+	setupAggWorldNamed(t, vec, brows, "mb", false)
+	setupAggWorldNamed(t, row, brows, "mb", false)
+	// --- dataset D: a handful of rows with null field values, for one probe of the null-field behaviour
+	var crows []aggRow
+	for i := 0; i < 30; i++ {
+		uid++
+		crows = append(crows, aggRow{id: fmt.Sprintf("a%02d", i%3), uid: uid, svc: "s", region: "r", ts: base.Add(40*time.Minute + time.Duration(i)*time.Second), v: int64(i + 1), fl: 1, vNull: i%6 == 0})
+	}
+	setupAggWorldNamed(t, vec, crows, "mc", false)
+	setupAggWorldNamed(t, row, crows, "mc", false)
 	time.Sleep(1200 * time.Millisecond)
 
 	durOf := map[int64]int64{}
@@ -448,6 +486,17 @@ func runDifferential(t *testing.T, s *verifh.Sink, vec, row *srv, kp, la, lb str
 	if settle != nil && !settle(rows, arows) {
 		s.Inconclusive("side " + la + " did not hold all rows within the settle bound")
 		return
+	}
+	if kp == "c15" {
+		pq := aggQuery{name: "mc", groupBy: []string{"id"}, hasAgg: true, fn: modelv1.AggregationFunction_AGGREGATION_FUNCTION_SUM, field: "v", limit: 100}
+		pa, ea := vec.queryMeasure(pq.request(lo, hi))
+		pc, ec := row.queryMeasure(pq.request(lo, hi))
+		if ea == nil && ec == nil && len(pa.DataPoints) > 0 && len(pc.DataPoints) == 0 {
+			s.Violation("c15:measure-agg:null-field-values:row-path-answers-nothing", map[string]any{"program": "SUM(v) group by id over 30 points of which 5 hold a null v",
+				"vectorized_groups": len(pa.DataPoints), "row_groups": len(pc.DataPoints)})
+		} else if (ea == nil) != (ec == nil) || (ea == nil && len(pa.DataPoints) != len(pc.DataPoints)) {
+			s.Violation("c15:measure-agg:null-field-values:paths-differ", map[string]any{"vectorized_err": fmt.Sprint(ea), "row_err": fmt.Sprint(ec)})
+		}
 	}
 	h0, s0 := vmplan.HandledCount(), vstream.QueryCount()
 	nQ := verifh.Pick(160, 2500)
@@ -591,6 +640,10 @@ func runDifferential(t *testing.T, s *verifh.Sink, vec, row *srv, kp, la, lb str
 			}
 		default: // aggregation / group-by / top
 			q := genAggQuery(r, i)
+			if r.Intn(3) == 0 {
+				q.name = "mb"
+				q.desc += " on mb (null group tags)"
+			}
 			req := q.request(lo, hi)
 			desc = "measure-agg " + q.desc
 			var a, c *measurev1.QueryResponse
@@ -627,9 +680,11 @@ func runDifferential(t *testing.T, s *verifh.Sink, vec, row *srv, kp, la, lb str
 					}
 					return out, tie
 				}
-				va, tie := vals(a)
+				va, _ := vals(a)
 				vc, _ := vals(c)
-				if tie && fmt.Sprint(va) == fmt.Sprint(vc) {
+				// equal value sequences: which of several groups with the same aggregate fills a place is open
+				// (the group -> value association itself is judged by the C10 reference comparison)
+				if fmt.Sprint(va) == fmt.Sprint(vc) {
 					rv, rr = nil, nil
 					s.Count(kp+".top_answers_equal_up_to_ties", 1)
 				}
@@ -637,7 +692,7 @@ func runDifferential(t *testing.T, s *verifh.Sink, vec, row *srv, kp, la, lb str
 			// C10: both servers' answers against the reference (group key -> aggregate)
 			for si, resp := range []*measurev1.QueryResponse{c, a} {
 				path := []string{lb, la}[si]
-				if resp == nil {
+				if resp == nil || q.name == "mb" {
 					continue
 				}
 				if q.hasAgg && q.top == 0 {
